@@ -53,12 +53,19 @@ TxnJudge(pre, post, r, got, facts) ==
   \cup F("txn-results", ~got.ok \/ r.res.ok = "no" \/ got.outs = r.res.outs)
   \cup F("txn-single-index", ~got.ok \/ \A x \in post.kv : (x \notin pre.kv => x.mi = post.idx))
 
+Norm1(i) == IF i = 0 THEN 1 ELSE i
 ReadsJudge(post, reads) ==
   UNION {
     LET q == reads[i] IN
     CASE q.q = "list" -> F("read-list", q.ents = KVList(post, q.p)) \cup F("read-list-idx", q.idx = KVListIdx(post, q.p))
       [] q.q = "get"  -> F("read-get", IF KvHas(post, q.k) THEN q.found /\ q.ent = KvGet(post, q.k) ELSE ~q.found)
                          \cup F("read-get-idx", q.idx = KVTableIdx(post))
+      [] q.q = "keys" -> F("read-keys", q.keys = KVKeys(post, q.p, q.sep)) \cup F("read-keys-idx", q.idx = Norm1(KVListIdx(post, q.p)))
+      \* the RPC endpoints KVS.Get / KVS.List (kvs_endpoint.go): a found key reports its own modify index,
+      \* an index of 0 is reported as 1
+      [] q.q = "rget" -> F("read-get", IF KvHas(post, q.k) THEN q.found /\ q.ent = KvGet(post, q.k) ELSE ~q.found)
+                         \cup F("read-get-idx", q.idx = IF KvHas(post, q.k) THEN KvGet(post, q.k).mi ELSE Norm1(KVTableIdx(post)))
+      [] q.q = "rlist" -> F("read-list", q.ents = KVList(post, q.p)) \cup F("read-list-idx", q.idx = Norm1(KVListIdx(post, q.p)))
       [] OTHER -> {}
     : i \in DOMAIN reads }
 
